@@ -652,9 +652,14 @@ fn c06(cx: &Ctx, o: &mut Outcome) {
         }
         End::Completed => {
             // capacity probe and follow-up must have been answered correctly
-            let want = cx.fs.resolve_from(&cx.fs.root, "probe.txt");
-            let body = match want {
-                model::Res::File(p) => cx.fs.file(&p).cloned(),
+            // (the file the probe request names: probe.txt unless the campaign says otherwise)
+            let probe_target = match &cx.sc.probe {
+                Probe::FollowUp { request } | Probe::Capacity { request } => wire::view_request(&request.0).target,
+                Probe::None => "/probe.txt".to_string(),
+            };
+            let want = cx.fs.resolve_from(&cx.fs.root, probe_target.trim_start_matches('/'));
+            let body: Option<&Vec<u8>> = match want {
+                model::Res::File(p) => cx.fs.file(&p),
                 _ => None,
             };
             let mut ids = r.probe_ids.clone();
@@ -662,7 +667,7 @@ fn c06(cx: &Ctx, o: &mut Outcome) {
                 ids.push(f);
             }
             for id in ids {
-                let ok = cx.complete(id).is_ok() && cx.resp(id).map(|x| x.code == 200 && Some(&x.body) == body.as_ref()).unwrap_or(false);
+                let ok = cx.complete(id).is_ok() && cx.resp(id).map(|x| x.code == 200 && Some(&x.body) == body).unwrap_or(false);
                 if !ok {
                     o.verdicts.push(v("C06", "probe_wrong_answer", format!("after history [{}] the valid probe request was answered with {:?}", history, escape_trunc(&r.conns[id].outbound, 100)), Some(id)));
                     break;
